@@ -264,7 +264,7 @@ def rule_T1c(prog, fixture=False):
     # free operators
     for f in sorted(prog.functions.values(), key=lambda f: (f.file, f.line, f.name)):
         nm = f.qn.rsplit("::", 1)[-1]
-        if f.cls or nm not in ARITH_OPS or not f.qn.startswith("dsplib::"):
+        if f.cls or f.get("lambda") or nm in ("operator()", "operator[]") or nm not in ARITH_OPS or not f.qn.startswith("dsplib::"):
             continue
         if not any("base_array<" in p.get("t", "") or "cmplx_t" in p.get("t", "") for p in f.params):
             continue
